@@ -337,7 +337,19 @@ macro_rules! hal_backend {
                     }
                     "cnv_by_const" => {
                         let c: Vec<i64> = st[6].split(',').map(|x| x.parse().unwrap()).collect();
-                        module.cnv_by_const_apply(us(st[1]), bigs.get_mut(st[2]).unwrap(), us(st[3]), &vecs[st[4]], us(st[5]), &c, scratch.borrow());
+                        // the constants are the prefix of a longer vector with a non-zero guard tail: a read past
+                        // the end of `b` changes the result instead of going unnoticed
+                        let mut guarded: Vec<i64> = c.clone();
+                        guarded.extend_from_slice(&[0x5A5A_5A5A_5A5A; 16]);
+                        module.cnv_by_const_apply(
+                            us(st[1]),
+                            bigs.get_mut(st[2]).unwrap(),
+                            us(st[3]),
+                            &vecs[st[4]],
+                            us(st[5]),
+                            &guarded[..c.len()],
+                            scratch.borrow(),
+                        );
                     }
                     "big_normalize" => {
                         let b = &bigs[st[5]];
